@@ -253,14 +253,14 @@ Section Relation.
 
   Definition accepts (c : ctag) (t : nat) : bool :=
     match type_of_tag c with
-    | Some tau => compat cfg fuel I tau t
+    | Some tau => compat cfg fuel PX tau t
     | None => prim_fallback c t
     end.
 
   Lemma In_prim_check found is_prim tag t c :
-    In c (prim_check cfg fuel I found is_prim tag t) <->
+    In c (prim_check cfg fuel PX found is_prim tag t) <->
     c = tag /\ match found with
-               | Some id => compat cfg fuel I id t = true
+               | Some id => compat cfg fuel PX id t = true
                | None => match lookup_type PX t with
                          | Some pattern => is_prim pattern || is_never pattern = true
                          | None => False
@@ -268,7 +268,7 @@ Section Relation.
                end.
   Proof.
     unfold prim_check. fold PX. destruct found as [id|].
-    - destruct (compat cfg fuel I id t); cbn; [intuition congruence|intuition congruence].
+    - destruct (compat cfg fuel PX id t); cbn; [intuition congruence|intuition congruence].
     - destruct (lookup_type PX t) as [pattern|]; [|cbn; intuition].
       destruct (is_prim pattern || is_never pattern); cbn; intuition congruence.
   Qed.
@@ -279,7 +279,7 @@ Section Relation.
   (* table_is_relation: a tag is in the row of pattern t  iff  the tag's type is assignable to t
      (or, for a primitive that has no entry, the fallback) *)
   Theorem table_is_relation : forall c t,
-    In c (compute_compatible_concrete_types cfg fuel I (build_index PX) t) <-> accepts c t = true.
+    In c (compute_compatible_concrete_types cfg fuel I PX (build_index PX) t) <-> accepts c t = true.
   Proof.
     intros c t.
     destruct (build_index_spec PX) as (Hi & Hb & Hr & Hlen & Ht & Hc & Hp & Hs).
@@ -293,27 +293,27 @@ Section Relation.
       + destruct (position is_bin (types PX)); [exact H|]. destruct (lookup_type PX t); [exact H|destruct H].
       + destruct (position is_ref (types PX)); [exact H|]. destruct (lookup_type PX t); [exact H|destruct H].
       + destruct H as [tid [o [Hn Hin]]]. cbn in Hin. destruct o as [type_id|]; [|destruct Hin].
-        destruct (compat cfg fuel I type_id t) eqn:Hcmp; [|destruct Hin]. destruct Hin as [<-|[]].
+        destruct (compat cfg fuel PX type_id t) eqn:Hcmp; [|destruct Hin]. destruct Hin as [<-|[]].
         assert (Hlt : tid < length (tuples PX)) by (rewrite <- Hlen; apply nth_error_Some; congruence).
         rewrite (Ht tid Hlt) in Hn. assert (Hpos : position (is_tuple tid) (types PX) = Some type_id) by congruence.
         apply Nat.ltb_lt in Hlt. rewrite Hlt, Hpos. exact Hcmp.
       + destruct H as [f [fi [Hn Hin]]]. cbn in Hin.
         pose proof (extract_callable fi) as Hx.
         destruct (extract_function_type_info P fi) as [[[pa ca] se] re]. cbn in Hx. subst ca.
-        destruct (compat cfg fuel I (f_type_id fi) t) eqn:Hcmp; [|destruct Hin]. destruct Hin as [<-|[]].
+        destruct (compat cfg fuel PX (f_type_id fi) t) eqn:Hcmp; [|destruct Hin]. destruct Hin as [<-|[]].
         rewrite Hn. cbn. exact Hcmp.
       + destruct H as [b [key [Hn Hin]]]. cbn in Hin. rewrite Hc in Hin.
         destruct (position (is_callable_never PX key) (types PX)) as [cid|] eqn:Hpos; [|destruct Hin].
-        destruct (compat cfg fuel I cid t) eqn:Hcmp; [|destruct Hin]. destruct Hin as [<-|[]].
+        destruct (compat cfg fuel PX cid t) eqn:Hcmp; [|destruct Hin]. destruct Hin as [<-|[]].
         rewrite Hn, Hpos. exact Hcmp.
       + destruct H as [f [fi [Hn Hin]]]. cbn in Hin.
         destruct (extract_function_type_info P fi) as [[[pa ca] se] re] eqn:Hex. rewrite Hp in Hin.
         destruct (position (is_process (se, re)) (types PX)) as [pid|] eqn:Hpos; [|destruct Hin].
-        destruct (compat cfg fuel I pid t) eqn:Hcmp; [|destruct Hin]. destruct Hin as [<-|[]].
+        destruct (compat cfg fuel PX pid t) eqn:Hcmp; [|destruct Hin]. destruct Hin as [<-|[]].
         rewrite Hn, Hex, Hpos. exact Hcmp.
       + destruct H as [r [name [Hn Hin]]]. cbn in Hin. rewrite Hs in Hin.
         destruct (position (is_resource name) (types PX)) as [rid|] eqn:Hpos; [|destruct Hin].
-        destruct (compat cfg fuel I rid t) eqn:Hcmp; [|destruct Hin]. destruct Hin as [<-|[]].
+        destruct (compat cfg fuel PX rid t) eqn:Hcmp; [|destruct Hin]. destruct Hin as [<-|[]].
         rewrite Hn, Hpos. exact Hcmp.
     - intros H. destruct c as [| | |tid|f|b|f|r].
       + left. split; [reflexivity|]. destruct (position is_int (types PX)); [exact H|].
@@ -395,7 +395,7 @@ Section IsType.
     - assert (Hlt : t < length (types P)).
       { assert (Hx : t < length (map (fun pattern_id =>
                    if existsb (Nat.eqb pattern_id) (pattern_type_ids I)
-                   then compute_compatible_concrete_types cfg fuel I (build_index PX) pattern_id else [])
+                   then compute_compatible_concrete_types cfg fuel I PX (build_index PX) pattern_id else [])
                    (seq 0 (length (types P))))) by (apply nth_error_Some; congruence).
         rewrite map_length, seq_length in Hx. exact Hx. }
       rewrite nth_error_map', nth_error_seq' in Hn by exact Hlt. cbn in Hn. inversion Hn as [Hrow]. clear Hn.
